@@ -113,7 +113,13 @@ fn output_size_and_padding_for_axis(
             // position lies entirely within the padding region. In that case
             // we'd have no values to pool. To avoid this, reduce the output
             // size. See also https://github.com/onnx/onnx/issues/5711.
-            if round_mode == RoundMode::Ceil && (out_size - 1) * stride >= in_size + pad_start {
+            //
+            // With end padding larger than the kernel, more than one trailing
+            // position can start beyond the input.
+            while round_mode == RoundMode::Ceil
+                && out_size > 0
+                && (out_size - 1) * stride >= in_size + pad_start
+            {
                 out_size -= 1;
             }
 
